@@ -74,6 +74,22 @@ CHECKS = {
                      'In-place ops: a.len()==b.len() established on every path into the unchecked loop (private, unsafe, single caller), loop 0..a.len() with a[i] = f(a[i], b[i]); '
                      'write/add/add-with-gain/equilibrium/map are the documented element-wise frame operations; the mismatch path panics before any write.',
                 note=TB + '; from_raw_parts / Box::from_raw / array layout as documented by core/alloc.'),
+    'C11': dict(level='other', ref='DESIGN.md §5 C11, Appendix C.6',
+                technique='path summaries over MIR + per-channel scalarisation into a rational-function normal form (piecewise cases); bit-exact constant check of the no_std sqrt',
+                text='Decides formula conformance in std and no_std builds: next_squared pushes x*x, adds the same term, subtracts the value returned by that push, clamps at zero, divides by '
+                     'window.len(); sqrt applied exactly once in next/current; reset; signal adaptor; sample_sqrt dispatch; no_std bit-trick with bias bit-equal to 1.0 of that type. '
+                     'The windowed-sum statement follows with C06; the numeric error bound is NOT decided (paper: <= 6.07 % for the bit trick).',
+                note=TB + '; amplitude abstraction; rounding ignored in polynomial identities.'),
+    'C19': dict(level='other', ref='DESIGN.md §5 C19',
+                technique='per-channel scalarisation of closures into piecewise rational functions, sibling-agreement rule, write-set rules',
+                text='Rectifier cell functions (|x|, max(x,0), min(x,0)) on the three cells, each Rectifier impl forwards to its own kind, gain = select(n==0, 0, powf(e, -1/n)) with bit-exact e, '
+                     'one-pole update d + select(l<d, attack, release)*(l-d) stored and returned, constructor and setter write sets, Detect impls, signal adaptor. No-overshoot / convergence are a paper step.',
+                note=TB + '; amplitude abstraction (comparisons in a format agree with comparisons of amplitudes).'),
+    'C20': dict(level='other', ref='DESIGN.md §5 C20, Appendix C.5',
+                technique='rational-function normal form (Hann), path summaries, Fourier-Motzkin over (bin, hop, remaining) for the windower transition and the size_hint consistency rule',
+                text='Hann = 0.5(1-cos(2 pi p)) with bit-exact 2 pi, Rectangle = identity, Window::new step 1/(n-1) from phase 0, one phase step per item, Windowed = window x source; Windower transition '
+                     '(Some iff bin <= L, chunk frames[..bin], L\' = L-hop or 0); size_hint guard = next guard and count = (L-bin)/hop+1. Chunk count closed form by induction (paper).',
+                note=TB + '; rounding ignored in the Hann identity.'),
 }
 
 NOT_YET = 'check not implemented yet in this revision of /verif (see DESIGN.md §10 build order)'
